@@ -7,6 +7,7 @@ import time
 
 import peglib as L
 import sweep as S
+import lifecycle as LC
 
 VERIF = L.VERIF
 ALLOWED_AXIOMS = {'propext', 'Classical.choice', 'Quot.sound'}
@@ -512,7 +513,90 @@ def c08_extra(ctx):
     L.cleanup()
 
 
-PROPS = {'C01': c01, 'C08': c08, 'C16': c16, 'C18': c18, 'C02': c02, 'C03': c03, 'C04': c04, 'C05': c05, 'C06': c06, 'C07': c07, 'C11': c11}
+def regen_facts(ctx):
+    """T-facts: rewrite lean/PegVerif/Generated/Footprints.lean from the current source."""
+    import fcntl
+    facts = go_tool(ctx, 'facts')
+    out = os.path.join(L.LEAN, 'PegVerif', 'Generated', 'Footprints.lean')
+    with open(os.path.join(ctx.T().dir, 'facts.lock'), 'w') as lock:
+        fcntl.flock(lock, fcntl.LOCK_EX)
+        tmp = os.path.join(ctx.T().dir, 'Footprints.lean')
+        p = subprocess.run([facts, '-repo', L.REPO, '-out', tmp], capture_output=True, text=True, env=L.GOENV)
+        if p.returncode != 0:
+            raise RuntimeError('facts translator failed: ' + (p.stderr or p.stdout)[-1500:])
+        new = open(tmp).read()
+        old = open(out).read() if os.path.exists(out) else ''
+        if new != old:
+            with open(out, 'w') as fh:
+                fh.write(new)
+        return new, new != old
+
+
+def racex(ctx, only):
+    rx = go_tool(ctx, 'racex')
+    work = L.scratch('racex-')
+    p = subprocess.run([rx, '-repo', L.REPO, '-tier', ctx.tier, '-only', only, '-work', work], capture_output=True, text=True,
+                       env=L.GOENV, timeout=7200)
+    out = p.stdout + p.stderr
+    return p.returncode, out
+
+
+def conc(ctx, pid, module, only, what):
+    facts, changed = regen_facts(ctx)
+    ctx.coverage['facts_regenerated'] = {'changed_vs_committed_snapshot': changed, 'bytes': len(facts)}
+    ctx.proofs([module])
+    rc, out = racex(ctx, only)
+    tail = '\n'.join(out.strip().splitlines()[-25:])
+    nums = [int(x) for x in re.findall(r'(?:compiles|runs)=(\d+)', out)]
+    jobs = [int(x) for x in re.findall(r'jobs=(\d+)', out)]
+    ctx.coverage.update({
+        'evaluations': sum(nums) if nums else 1,
+        'distinct_nontrivial': max(jobs) if jobs else 0,
+        'rule': what,
+        'samples': [l for l in out.splitlines() if l.strip()][-6:],
+        'racex_tail': tail[-1500:],
+    })
+    if rc != 0:
+        ctx.add('spec', 'racex/' + only, 'dynamic validation failed (race report or differing output): ' + tail[-600:], {'output': out[-8000:]})
+    ctx.assumptions += ['Go memory model: data-race-free programs are sequentially consistent; WaitGroup orders the goroutines',
+                        'extractor soundness: the real closures respect the extracted read/write footprints (validated by the race detector runs)']
+
+
+def c09(ctx):
+    conc(ctx, 'C09', 'PegVerif.Props.C09', 'c09',
+         'footprints of the two analysis goroutines re-extracted from the source (go/ast + go/types), disjointness decided by the kernel; '
+         'dynamic: K concurrent Compile calls of independent trees under the race detector, GOMAXPROCS in {1,2,16}, repeated, every output and warning text compared '
+         'byte-for-byte with the first sequential run and across processes')
+
+
+def c14(ctx):
+    conc(ctx, 'C14', 'PegVerif.Props.C14', 'c14',
+         'package-level state of a generated parser re-extracted from generated code; dynamic: 32 goroutines, each its own instance of the same/different parsers, '
+         'Init/Parse/Execute/SprintSyntaxTree/Error concurrently under the race detector, results compared with sequential runs')
+
+
+@matcher('F-C12-1')
+def _m_c12_1(d, k):
+    r = d.get('replay') or {}
+    return d['tie'] == 'T-run/width' and r.get('width_probe') is True and r.get('u') == 16
+
+
+def c12(ctx):
+    ctx.proofs(['PegVerif.Props.C12'])
+    LC.c12(ctx)
+
+
+def c13(ctx):
+    ctx.proofs(['PegVerif.Props.C13'])
+    LC.c13(ctx)
+
+
+def c17(ctx):
+    ctx.proofs(['PegVerif.Props.C17'])
+    LC.c17(ctx)
+
+
+PROPS = {'C01': c01, 'C08': c08, 'C09': c09, 'C12': c12, 'C13': c13, 'C14': c14, 'C17': c17, 'C16': c16, 'C18': c18, 'C02': c02, 'C03': c03, 'C04': c04, 'C05': c05, 'C06': c06, 'C07': c07, 'C11': c11}
 
 
 def replay(ctx, path):
